@@ -1148,6 +1148,7 @@ int femmcli::LuaElectrostaticsCommands::luaProblemDefinition(lua_State *L)
  * \internal
  * ### Implements:
  * - \lua{ei_set_arcsegment_prop(maxsegdeg, "propname", hide, group, "inconductor")}
+ * - \lua{hi_set_arcsegment_prop(maxsegdeg, "propname", hide, group, "inconductor")}
  *
  * ### FEMM sources:
  * - \femm42{femm/beladrawLua.cpp,lua_setarcsegmentprop()}
